@@ -349,7 +349,22 @@ func WaitNoLibExcept(ignore map[int64]bool, d time.Duration, maxPolls int) (leak
 				}
 			}
 			if allBlocked && time.Since(since) >= d {
-				return lib, false
+				// the remaining library goroutines may be waiting for a harness goroutine that is merely starved of
+				// CPU: a leak is declared only when nothing else in the process could still move either
+				self := selfGoroID()
+				quiet := true
+				for i := range c {
+					g := &c[i]
+					if g.ID == self || isRuntimeGoro(g) {
+						continue
+					}
+					if !g.Blocked() {
+						quiet = false
+					}
+				}
+				if quiet {
+					return lib, false
+				}
 			}
 		} else {
 			prev = fp
